@@ -321,6 +321,15 @@ func (e *Env) sel(n *contract.Sel) Val {
 }
 
 func (e *Env) field(base Val, name string) Val {
+	if bt, ok := base.(VT); ok && bt.Ty != nil {
+		if _, isChan := bt.Ty.Underlying().(*types.Chan); isChan {
+			class, so := chanGhostSort(name)
+			if so == nil {
+				e.fail("a channel has the ghost fields sent, nsent, closed (not %s)", name)
+			}
+			return VMath{e.x.chanGet(e.st, class, so, bt.T)}
+		}
+	}
 	switch b := base.(type) {
 	case VStruct:
 		stt := b.Ty.Underlying().(*types.Struct)
